@@ -3,6 +3,9 @@
 use crate::core::Ctx;
 
 pub mod c01;
+pub mod c32;
+pub mod c15;
+pub mod c14;
 pub mod c02;
 pub mod c05;
 pub mod c06;
@@ -43,7 +46,7 @@ pub const DEFAULT: PropInfo = PropInfo {
     watchdog_s: 120,
 };
 
-pub static REGISTRY: &[&PropInfo] = &[&c01::INFO, &c02::INFO, &c05::INFO, &c06::INFO];
+pub static REGISTRY: &[&PropInfo] = &[&c01::INFO, &c02::INFO, &c05::INFO, &c06::INFO, &c14::INFO, &c15::INFO, &c32::INFO];
 
 pub fn lookup(id: &str) -> Option<&'static PropInfo> {
     REGISTRY.iter().copied().find(|p| p.id == id)
